@@ -19,4 +19,4 @@ for item in sys.argv[1:]:
         tests += re.findall(r"^func (Test\w+)", open(d).read(), re.M)
     cmd = "go test -vet=off -count=1 %s -run '^(%s)$' %s" % (extra, "|".join(tests), " ".join(sorted(pkgs)))
     print("==", sid, cmd, flush=True)
-    subprocess.run([os.path.join(ROOT, "tools", "seed_verify.py"), prop, src, sid, "--demo-cmd", cmd, "--needs", needs, "--demo-files"] + files)
+    subprocess.run([os.path.join(ROOT, "tools", "seed_verify.py"), prop.rstrip("b"), src, sid, "--demo-cmd", cmd, "--needs", needs, "--demo-files"] + files)
